@@ -62,7 +62,9 @@ def _impl_one(args):
     # for ever) must be reported with that input, not end the whole check with a harness timeout: bound the CPU time of
     # one case (ITIMER_PROF counts CPU time of this process only, so a loaded machine does not trip it).
     old = signal.signal(signal.SIGPROF, _on_case_timer)
-    signal.setitimer(signal.ITIMER_PROF, CASE_CPU_LIMIT)
+    # fires again every second of CPU after the limit: code under test that swallows BaseException (ConfigList.__getattribute__
+    # does) cannot hold on to the case for long
+    signal.setitimer(signal.ITIMER_PROF, CASE_CPU_LIMIT, 1.0)
     try:
         return _impl_one_inner(mod, case, req)
     except CaseTimeout:
@@ -125,6 +127,35 @@ def _mix_child(args):
                 if str(f).startswith("oracle-exc:") or str(a).startswith("harness-exc:"):
                     continue
                 return (pos, phase, f, a)
+    return None
+
+
+def _search_child(args):
+    modname, prop, seed, seeds, known = args
+    mod = importlib.import_module(modname)
+    rng = random.Random(f"{prop}-{seed}-search")
+    pool = []
+    if hasattr(mod, "neighbours"):
+        for c in seeds:
+            for n in mod.neighbours(c, rng):
+                pool.append(n)
+                if len(pool) > 4000:
+                    break
+    extra = getattr(mod, "SEARCH_EXTRA", 2000)
+    gen = mod.cases(random.Random(f"{prop}-{seed}-extra"), "search")
+    for c in gen:
+        pool.append(c)
+        if len(pool) > 4000 + extra:
+            break
+    for c in pool:
+        a, fails, _ = _impl_one((modname, c))
+        if a == "skipped-after-timeouts":
+            break
+        for f in fails:
+            kid = mod.known_id(c, f) if hasattr(mod, "known_id") else None
+            if kid and kid in known and known[kid].get("kind") == "known":
+                continue
+            return c, a, f
     return None
 
 
@@ -470,29 +501,20 @@ class Check:
                 [dict(cases[i]) for i in best], a)
 
     def concentrated_search(self, seeds, known):
-        mod = self.mod
-        rng = random.Random(f"{self.prop}-{self.seed}-search")
-        pool = []
-        if hasattr(mod, "neighbours"):
-            for c in seeds:
-                for n in mod.neighbours(c, rng):
-                    pool.append(n)
-                    if len(pool) > 4000:
-                        break
-        extra = getattr(mod, "SEARCH_EXTRA", 2000)
-        gen = mod.cases(random.Random(f"{self.prop}-{self.seed}-extra"), "search")
-        for c in gen:
-            pool.append(c)
-            if len(pool) > 4000 + extra:
-                break
-        for c in pool:
-            a, fails, _ = _impl_one((self.modname, c))
-            for f in fails:
-                kid = mod.known_id(c, f) if hasattr(mod, "known_id") else None
-                if kid and kid in known and known[kid].get("kind") == "known":
-                    continue
-                return c, a, f
-        return None
+        """failing-input search after a broken obligation / correspondence, in a forked child under a wall-clock bound
+        (the code under test may hang on a neighbour of a disagreeing input)"""
+        ctx = multiprocessing.get_context("fork")
+        budget = float(os.environ.get("VERIF_SEARCH_WALL", "150"))
+        pool = ctx.Pool(1)
+        try:
+            r = pool.apply_async(_search_child, ((self.modname, self.prop, self.seed, seeds, known),))
+            try:
+                return r.get(timeout=budget)
+            except multiprocessing.TimeoutError:
+                self.notes.append(f"failing-input search stopped after {budget:g} s of wall time")
+                return None
+        finally:
+            pool.terminate()
 
     def write_evidence(self, cases, results, disagreements, info, proofs_ok, status):
         mod = self.mod
